@@ -27,12 +27,12 @@ def main(tier, seed):
     vcheck.finalize_classes(chk)
     chk.set('bounds', {
         'base_solutions': 14, 'formats': ['text', 'binary (reference codec)'],
-        'deviation_bound': '1 (all handlers/sizes per tier rule); 2 in thorough for read_all and SOLHandler_Easy at equal sizes',
+        'deviation_bound': '1 (quick: all handlers at equal sizes + all sizes for read_all/Easy; thorough: full cross product); 2 in thorough at equal sizes for read_all on 13 bases and SOLHandler_Easy on 3 bases',
         'token_alternatives': ['0', '1', '-1', 'n+1', 'n-1', '2147483647', '2147483648', '1e300', '(empty)', 'x'],
         'binary_alternatives': {'int': ['0', '1', '-1', 'n+1', 'n-1', 'INT_MAX', 'INT_MIN'], 'double': ['0', '1', '-1', 'n+1', '1e300', 'NaN'],
                                 'record_length_open_close': ['0', 'len+1', 'len-1', 'INT_MAX', 'closing length missing'],
                                 'raw': ['emptied', 'x-filled', 'one byte shorter', 'one byte longer'], 'record': ['deleted', 'duplicated']},
-        'suffix_header_lattice': [0, 1, 2, 7, 15, 16, 18, 511, 512, 513, 100000] if tier == 'thorough' else [0, 1, 2, 16, 18, 512, 100000],
+        'suffix_header_lattice': [0, 1, 2, 7, 15, 16, 18, 511, 512, 100000] if tier == 'thorough' else [0, 1, 2, 16, 18, 512, 100000],
         'line_lengths': [510, 511, 512, 513, 514, 1022, 1023, 1024],
         'declared_sizes': ['equal', 'zero', 'smaller', 'larger'],
         'handlers': ['read_all', 'stop_after_one', 'read_none', 'set_error', 'reject_options', 'SOLHandler_Easy via NLSolver::ReadSolution (reversed permutation)'],
